@@ -3,3 +3,6 @@ import ADProofs.Partition
 import ADProofs.Conn
 import ADProofs.ConnInv
 import ADProofs.RunInd
+import ADProofs.Forest
+import ADProofs.Contour
+import ADProofs.GridProofs
